@@ -278,6 +278,9 @@ pub fn property(tier: Tier) -> Property {
     for (name, lang, q, t) in [("threads-core", LangId::Core, 1500u32, 30_000u32), ("threads-arith", LangId::Arith, 800, 16_000), ("threads-lambda", LangId::Lambda, 500, 10_000)] {
         let mut cfg = MixedCfg::for_lang(lang);
         cfg.max_ops = tier.pick(8, 12);
+        // also spellings that leave no trace in the thread's name table ($3, $f7): whatever such a name does to the thread-local
+        // slot state has to happen again in the replaying thread
+        cfg.hist.namings = crate::tm::Naming::diverse();
         stages.push(Box::new(Stage {
             name,
             source: random(move || mixed_strategy(cfg.clone()), tier.pick(q, t)),
